@@ -75,6 +75,8 @@ PlainAdvance == IsPlain /\ AdvanceAny
 PlainCut == IsPlain /\ CutNext
 PlainRestore == IsPlain /\ RestoreNext
 PlainFlood == IsPlain /\ FloodNext
+PlainHeld == IsPlain /\ DelayNext
+PlainLate == IsPlain /\ LateNext
 IsHold == ~cfg.nofl /\ cfg.hold
 HoldUp == IsHold /\ UpAny
 HoldDown == IsHold /\ DownAny
@@ -82,6 +84,8 @@ HoldAdvance == IsHold /\ AdvanceAny
 HoldCut == IsHold /\ CutNext
 HoldRestore == IsHold /\ RestoreNext
 HoldFlood == IsHold /\ FloodNext
+HoldHeld == IsHold /\ DelayNext
+HoldLate == IsHold /\ LateNext
 IsNofl == cfg.nofl /\ ~cfg.hold
 NoflUp == IsNofl /\ UpAny
 NoflDown == IsNofl /\ DownAny
@@ -89,6 +93,8 @@ NoflAdvance == IsNofl /\ AdvanceAny
 NoflCut == IsNofl /\ CutNext
 NoflRestore == IsNofl /\ RestoreNext
 NoflFlood == IsNofl /\ FloodNext
+NoflHeld == IsNofl /\ DelayNext
+NoflLate == IsNofl /\ LateNext
 IsBoth == cfg.nofl /\ cfg.hold
 BothUp == IsBoth /\ UpAny
 BothDown == IsBoth /\ DownAny
@@ -96,10 +102,30 @@ BothAdvance == IsBoth /\ AdvanceAny
 BothCut == IsBoth /\ CutNext
 BothRestore == IsBoth /\ RestoreNext
 BothFlood == IsBoth /\ FloodNext
-NextCfgs == \/ PlainUp \/ PlainDown \/ PlainAdvance \/ PlainCut \/ PlainRestore \/ PlainFlood
-            \/ HoldUp \/ HoldDown \/ HoldAdvance \/ HoldCut \/ HoldRestore \/ HoldFlood
-            \/ NoflUp \/ NoflDown \/ NoflAdvance \/ NoflCut \/ NoflRestore \/ NoflFlood
-            \/ BothUp \/ BothDown \/ BothAdvance \/ BothCut \/ BothRestore \/ BothFlood
+BothHeld == IsBoth /\ DelayNext
+BothLate == IsBoth /\ LateNext
+NextCfgs == \/ PlainUp \/ PlainDown \/ PlainAdvance \/ PlainCut \/ PlainRestore \/ PlainFlood \/ PlainHeld \/ PlainLate
+            \/ HoldUp \/ HoldDown \/ HoldAdvance \/ HoldCut \/ HoldRestore \/ HoldFlood \/ HoldHeld \/ HoldLate
+            \/ NoflUp \/ NoflDown \/ NoflAdvance \/ NoflCut \/ NoflRestore \/ NoflFlood \/ NoflHeld \/ NoflLate
+            \/ BothUp \/ BothDown \/ BothAdvance \/ BothCut \/ BothRestore \/ BothFlood \/ BothHeld \/ BothLate
+
+\* quick tier: probes in flight under two of the four classes only (cost); NextCfgs (all four) in the thorough tier
+NextCfgsQ == \/ PlainUp \/ PlainDown \/ PlainAdvance \/ PlainCut \/ PlainRestore \/ PlainFlood \/ PlainHeld \/ PlainLate
+             \/ HoldUp \/ HoldDown \/ HoldAdvance \/ HoldCut \/ HoldRestore \/ HoldFlood
+             \/ NoflUp \/ NoflDown \/ NoflAdvance \/ NoflCut \/ NoflRestore \/ NoflFlood
+             \/ BothUp \/ BothDown \/ BothAdvance \/ BothCut \/ BothRestore \/ BothFlood \/ BothHeld \/ BothLate
+
+(* Reference controller with an environment biased towards probes in flight *)
+(* (EX_flight.cfg): whenever a probe can be delayed it is; while one is on   *)
+(* its way switches come and go, wires are cut, or it arrives.               *)
+NextRefFlight ==
+  IF flight = {}
+  THEN IF \E w \in adj : IsLive(w, phys, conn) THEN DelayNext ELSE NextRef
+  ELSE \/ \E s \in conn : SwitchDown(s, RefR(phys, conn \ {s}, 0, 0))
+       \/ \E s \in Switches \ conn : SwitchUp(s, RefR(phys, conn \cup {s}, 0, 0))
+       \/ CutNext
+       \/ \E w \in flight : Late(w, LateRefR(w))
+       \/ \E d \in {1, Detect} : Advance(d, RefR(phys, conn, d, Lesser(quiet + d, Cap)))
 
 (* Static part: every converged state (any wiring, any permitted NO_FLOOD   *)
 (* set) as an initial state; only Flood steps.  Decides "forest => a        *)
@@ -115,6 +141,7 @@ InitConverged ==
   /\ age = [l \in net.wires |-> Cap]
   /\ quiet = Cap
   /\ since = [s \in Switches |-> HoldCap]
+  /\ flight = {}
   /\ last = NoObs
   /\ hist = <<>>
 NextFlood == FloodNext
